@@ -439,6 +439,11 @@ func (m *mainMonitor) observe(line string, pos []string, h int64, res chainx.Res
 				approved, judged = authorised, true
 				if !authorised {
 					v("C17", "stranger-accepted", "Alphabet-only method executed without the Alphabet multisignature")
+					if method == "setcfg" || method == "aupd" {
+						// C19: "the configured fee", "once the Alphabet approves": what the contract charges and whom it obeys is
+						// configured by the Alphabet (2n/3+1 account) only; the n/2+1 majority account is not the Alphabet
+						v("C19", "configured-without-alphabet-approval", fmt.Sprintf("%s executed under signers [%s], none of which is the Alphabet's 2n/3+1 account", method, sig))
+					}
 				}
 			}
 		}
@@ -451,8 +456,12 @@ func (m *mainMonitor) observe(line string, pos []string, h int64, res chainx.Res
 				if m.paid[id] > 0 {
 					what = "cheque-paid-twice"
 				}
-				v("C19", what, fmt.Sprintf("cheque %s paid %d to %s although the Alphabet's votes for this id have not reached the threshold (again); approved payouts of this id so far: %d",
-					id, amt, m.tok(args[1]), m.paid[id]))
+				why := "the Alphabet's votes for this id have not reached the threshold (again)"
+				if !m.w.cfg.nd {
+					why = fmt.Sprintf("the transaction's signers [%s] do not include the Alphabet's 2n/3+1 account (the n/2+1 majority account is not the Alphabet)", sig)
+				}
+				v("C19", what, fmt.Sprintf("cheque %s paid %d to %s although %s; approved payouts of this id so far: %d",
+					id, amt, m.tok(args[1]), why, m.paid[id]))
 			}
 			if judged && approved && !fired {
 				v("C19", "approved-cheque-not-paid", fmt.Sprintf("cheque %s reached the threshold and was not paid", id))
